@@ -76,7 +76,8 @@ def cases(tier, seed):
         mode = "symm" if h % 2 else "square"
         yield "tx.roundtrip", {"table": table, "mode": mode, "px": gen.random_store(rng, len(table), mode, maxval=9),
                                "fmt": "coo" if h % 4 < 2 else "bg2", "one_based": h % 3 == 0,
-                               "chunk": rng.choice([1, 3, 10 ** 6]), "chunk2": rng.choice([1, 2, 1000])}
+                               "chunk": rng.choice([1, 3, 10 ** 6]), "chunk2": rng.choice([1, 2, 1000]),
+                               "max_merge": rng.choice([1, 2, 3, 200])}
     # (4) resolution-spec spellings of `cooler zoomify -r`
     for drv, case in c09_cases("thorough" if tier == "thorough" else "quick", seed):
         if drv == "zm.resspec":
